@@ -952,3 +952,10 @@ func filterCases(cs []Case) []Case {
 	}
 	return out
 }
+
+// HostileName returns a legal directory name made of characters that mean something to
+// globbing, formatting, shells or URL code: the engine must treat DirPath as opaque bytes.
+func HostileName(i int) string {
+	names := []string{"db[1]", "d*b?", "a b\tc", "{x,y}", "100%s%d", "\\back\\slash", "déjà-数据", "-rf", "#frag?q=1&x", "[", "...", "name.data", "x-merge", "000000001.data"}
+	return names[i%len(names)]
+}
